@@ -683,28 +683,36 @@ Theorem ff_stepb_sound pre live o ob post lost :
   ff_stepb pre live o ob post = true ->
   ff_step (abs pre live lost) o ob (abs post (live_after live o ob) (lost_after pre lost o ob post)).
 Proof.
-  destruct pre as [cap raw], post as [cap' raw']. unfold ff_stepb, abs, lost_after. cbn [fst snd].
+  destruct pre as [cap raw], post as [cap' raw']. unfold ff_stepb, abs, lost_after, alloc_general, alloc_zero. cbn [fst snd].
   destruct o as [size al|off size|n]; destruct ob as [off'| |]; try discriminate.
   - (* alloc *)
     intros H. apply andb_prop in H. destruct H as [Hp H]. apply pow2b_sound in Hp.
-    destruct (size =? 0) eqn:Ez.
-    + apply Z.eqb_eq in Ez. subst size.
-      repeat (apply andb_prop in H; destruct H as [H ?]).
+    destruct ((0 <=? size) && (cap <=? cap') && ((cap' =? cap) || match scan (norm raw) size al with None => true | Some _ => false end)) eqn:Eg.
+    + destruct (scan (grow_chunks (norm raw) cap (cap' - cap)) size al) as [[[s0 o'] G]|] eqn:Es.
+      * destruct ((off' =? o') && chunks_eqb (norm raw') G) eqn:Ec.
+        -- apply andb_prop in Ec. destruct Ec as [Ho He]. apply Z.eqb_eq in Ho. subst o'. apply chunks_eqb_eq in He. rewrite He.
+           apply andb_prop in Eg. destruct Eg as [Eg Eo]. apply andb_prop in Eg. destruct Eg as [E1 E2].
+           apply Z.leb_le in E1, E2. cbn [live_after].
+           replace cap' with (cap + (cap' - cap)) at 1 by lia.
+           apply (FF_alloc (mkS cap (norm raw) live lost) size al (cap' - cap) s0 off' G); cbn [s_cap s_free]; try assumption; try lia.
+           intros Hg. apply orb_prop in Eo. destruct Eo as [Hz|Hsc].
+           ++ apply Z.eqb_eq in Hz. lia.
+           ++ destruct (scan (norm raw) size al); [discriminate|reflexivity].
+        -- repeat (apply andb_prop in H; destruct H as [H ?]).
+           repeat match goal with H : (_ <=? _) = true |- _ => apply Z.leb_le in H | H : (_ =? _) = true |- _ => apply Z.eqb_eq in H end.
+           match goal with H : chunks_eqb _ _ = true |- _ => apply chunks_eqb_eq in H; rewrite H end.
+           subst size cap'. cbn [live_after].
+           apply (FF_alloc0 (mkS cap (norm raw) live lost) al off'); cbn [s_cap]; try assumption; lia.
+      * repeat (apply andb_prop in H; destruct H as [H ?]).
+        repeat match goal with H : (_ <=? _) = true |- _ => apply Z.leb_le in H | H : (_ =? _) = true |- _ => apply Z.eqb_eq in H end.
+        match goal with H : chunks_eqb _ _ = true |- _ => apply chunks_eqb_eq in H; rewrite H end.
+        subst size cap'. cbn [live_after].
+        apply (FF_alloc0 (mkS cap (norm raw) live lost) al off'); cbn [s_cap]; try assumption; lia.
+    + repeat (apply andb_prop in H; destruct H as [H ?]).
       repeat match goal with H : (_ <=? _) = true |- _ => apply Z.leb_le in H | H : (_ =? _) = true |- _ => apply Z.eqb_eq in H end.
       match goal with H : chunks_eqb _ _ = true |- _ => apply chunks_eqb_eq in H; rewrite H end.
-      subst cap'. cbn [live_after].
+      subst size cap'. cbn [live_after].
       apply (FF_alloc0 (mkS cap (norm raw) live lost) al off'); cbn [s_cap]; try assumption; lia.
-    + repeat (apply andb_prop in H; destruct H as [H ?]).
-      destruct (scan (grow_chunks (norm raw) cap (cap' - cap)) size al) as [[[s0 o'] G]|] eqn:Es; [|discriminate].
-      match goal with H : (_ && chunks_eqb _ _) = true |- _ => apply andb_prop in H; destruct H as [Ho He] end.
-      apply Z.eqb_eq in Ho. subst o'. apply chunks_eqb_eq in He. rewrite He.
-      repeat match goal with H : (_ <=? _) = true |- _ => apply Z.leb_le in H | H : (_ <? _) = true |- _ => apply Z.ltb_lt in H end.
-      cbn [live_after].
-      replace cap' with (cap + (cap' - cap)) at 1 by lia.
-      apply (FF_alloc (mkS cap (norm raw) live lost) size al (cap' - cap) s0 off' G); cbn [s_cap s_free]; try assumption; try lia.
-      intros Hg. match goal with H : (_ || _) = true |- _ => apply orb_prop in H; destruct H as [Hz|Hsc] end.
-      * apply Z.eqb_eq in Hz. lia.
-      * destruct (scan (norm raw) size al); [discriminate|reflexivity].
   - (* free *)
     cbn [live_after]. destruct (find_region off size live) as [q|] eqn:E; [|discriminate].
     destruct (find_region_spec _ _ _ _ E) as [Hin [Ho Hs]]. subst off size.
